@@ -77,6 +77,28 @@ package dyncrc16
 //@   hyp Crcfold(Crcfold(s, a, lo, m), a, m, hi) == Crcfold(s, a, lo, hi)
 //@   concl Crcfold(Crcfold(s, a, lo, m), a, m, hi+1) == Crcfold(s, a, lo, hi+1)
 
+//@@ ---- C04: why a zero residue detects every burst of at most 16 bits ----
+//@@ (1) over the same following byte two different running sums stay different (a step is injective in the sum);
+//@@ (2) flipping a non-empty pattern of bits that spans at most 16 positions of three consecutive bytes changes the
+//@@ running sum after those bytes, whatever the sum before and the bytes were.  By (2) the sums of the original and
+//@@ the corrupted stream differ right after the burst and by (1), byte by byte, they still differ at the end, so they
+//@@ cannot both be zero.  (The induction over the bytes that follow is the only step not mechanised here.)
+//@ lemma step_injective(s1 uint16, s2 uint16, b byte)
+//@   props C04 C14
+//@   reveal UpdSpec
+//@   hyp UpdSpec(s1, b) == UpdSpec(s2, b)
+//@   concl s1 == s2
+//@ lemma step_linear(s1 uint16, s2 uint16, b1 byte, b2 byte)
+//@   props C04 C14
+//@   reveal UpdSpec
+//@   concl UpdSpec(s1, b1)^UpdSpec(s2, b2) == UpdSpec(s1^s2, b1^b2)
+//@ spec pure Fold3(s uint16, x uint32) uint16 := UpdSpec(UpdSpec(UpdSpec(s, byte(x)), byte(x>>8)), byte(x>>16))
+//@ lemma burst16(s uint16, x uint32, w uint16, k uint32)
+//@   props C04 C14
+//@   reveal UpdSpec
+//@   hyp w != 0 && k <= 8 && x < 1<<24
+//@   concl Fold3(s, x^(uint32(w)<<k)) != Fold3(s, x)
+
 //@@ ---- the Hash16 interface as seen by package fit ----
 //@@ The running sum of a Hash16 is the value of the crc16 it points to; the
 //@@ interface contracts are justified by the subtype obligations below.
